@@ -110,6 +110,12 @@ func prototypes(s *svcSpec, r *Rng) [][][]byte {
 		// logged-in sessions issuing path and transfer commands (the grammar of C04 avoids them)
 		login := [][]byte{[]byte("USER anonymous\r\n"), []byte("PASS anonymous\r\n")}
 		cmds := []string{"CWD /", "CWD ..", "CWD a", "CDUP", "PWD", "MKD d1", "RMD d1", "DELE f", "RNFR a", "RNTO b", "PASV", "EPSV", "LIST", "NLST", "RETR f", "STOR f", "APPE f", "SIZE f", "MDTM f", "STAT /", "TYPE I", "PORT 10,1,0,10,4,1", "EPRT |1|10.1.0.10|1025|", "REST 5", "AUTH TLS", "PBSZ 0", "PROT P", "FEAT", "SYST", "NOOP", "QUIT", "ALLO 1", "MODE S", "STRU F", "OPTS UTF8 ON", "ABOR", "SITE x", "XCWD a", "XPWD", "XMKD q", "XRMD q", "MLSD", "MLST f", "CONF"}
+		for _, pv := range []string{"PASV", "EPSV"} {
+			// passive mode requested, a transfer command issued, the data port never connected to
+			d := append([][]byte{}, login...)
+			d = append(d, []byte(pv+"\r\n"), []byte(r.Pick([]string{"LIST", "NLST", "RETR f", "STOR f", "APPE f", "MLSD"})+"\r\n"))
+			out = append(out, d)
+		}
 		for k := 0; k < 3; k++ {
 			d := append([][]byte{}, login...)
 			for j := r.Range(1, 6); j > 0; j-- {
@@ -209,7 +215,7 @@ func mutate(r *Rng, d [][]byte) ([][]byte, string) {
 				for j < len(s) && s[j] >= '0' && s[j] <= '9' {
 					j++
 				}
-				s = s[:idx] + r.Pick([]string{"-1", "0", "99999999999999999999", "2147483648", "65536", "4294967295"}) + s[j:]
+				s = s[:idx] + r.Pick([]string{"-1", "0", "99999999999999999999", "2147483648", "65536", "4294967295", "100000000000", "1099511627776", "67108864", "9223372036854775807"}) + s[j:]
 				d[i] = []byte(s)
 			}
 			tags = append(tags, "number")
@@ -248,10 +254,69 @@ func hostileDialogue(s *svcSpec, r *Rng) ([][]byte, string) {
 		return cloneMsgs(ps[r.Intn(len(ps))]), "proto"
 	default:
 		ps := prototypes(s, r)
-		d, tag := mutate(r, ps[r.Intn(len(ps))])
+		proto := ps[r.Intn(len(ps))]
+		if r.Chance(0.5) {
+			// mutate only the body of an HTTP-framed message and keep the framing consistent, so that
+			// the mutation reaches the parser behind the HTTP layer (ipp, cwmp, json-rpc, ...)
+			if d, ok := mutateHTTPBody(r, proto); ok {
+				return d, "body-mutation"
+			}
+		}
+		d, tag := mutate(r, proto)
 		if tag == "" {
 			tag = "proto"
 		}
 		return d, tag
 	}
+}
+
+// mutateHTTPBody mutates the body of one HTTP request of the dialogue and recomputes Content-Length.
+func mutateHTTPBody(r *Rng, d [][]byte) ([][]byte, bool) {
+	d = cloneMsgs(d)
+	for _, i := range r.Perm(len(d)) {
+		m := d[i]
+		sep := bytes.Index(m, []byte("\r\n\r\n"))
+		if sep < 0 || !bytes.Contains(bytes.ToLower(m[:sep]), []byte("content-length:")) {
+			continue
+		}
+		head, body := string(m[:sep]), append([]byte(nil), m[sep+4:]...)
+		if len(body) == 0 {
+			continue
+		}
+		switch r.Intn(6) {
+		case 0, 1: // truncate the body
+			body = body[:r.Intn(len(body))]
+		case 2: // truncate at the very end (drop the last 1-3 bytes)
+			k := r.Range(1, 3)
+			if k < len(body) {
+				body = body[:len(body)-k]
+			}
+		case 3:
+			mb, _ := mutate(r, [][]byte{body})
+			if len(mb) > 0 {
+				body = mb[0]
+			}
+		case 4: // bit flips
+			for n := 1 + r.Intn(4); n > 0 && len(body) > 0; n-- {
+				body[r.Intn(len(body))] ^= 1 << uint(r.Intn(8))
+			}
+		default: // boundary values in 1/2/4-byte windows
+			pos := r.Intn(len(body))
+			w := []int{1, 2, 4}[r.Intn(3)]
+			val := [][]byte{{0, 0, 0, 0}, {0xff, 0xff, 0xff, 0xff}, {0x7f, 0xff, 0xff, 0xff}, {0x80, 0, 0, 0}}[r.Intn(4)]
+			for k := 0; k < w && pos+k < len(body); k++ {
+				body[pos+k] = val[4-w+k]
+			}
+		}
+		var lines []string
+		for _, l := range strings.Split(head, "\r\n") {
+			if strings.HasPrefix(strings.ToLower(l), "content-length:") {
+				l = fmt.Sprintf("Content-Length: %d", len(body))
+			}
+			lines = append(lines, l)
+		}
+		d[i] = append([]byte(strings.Join(lines, "\r\n")+"\r\n\r\n"), body...)
+		return d, true
+	}
+	return nil, false
 }
